@@ -22,7 +22,12 @@ typedef struct fiber_multi_channel {
   uint64_t low;
   uint32_t size;
   uint32_t power_of_2_mod;
-  fiber_t* waiters;
+  // blocked senders and blocked receivers are kept in separate lists: a
+  // completed send wakes a receiver, a completed receive wakes a sender. With
+  // one shared list a wake-up could land on a fiber of the wrong kind, which
+  // re-queued itself and left a fiber queued underneath it blocked forever.
+  fiber_t* send_waiters;
+  fiber_t* recv_waiters;
   // buffer must be last - it spills outside of this struct
   void* buffer[];
 } fiber_multi_channel_t;
@@ -54,22 +59,21 @@ static inline void fiber_multi_channel_destroy(fiber_multi_channel_t* channel) {
 }
 
 static inline void fiber_multi_channel_internal_wait(
-    fiber_multi_channel_t* channel) {
+    fiber_multi_channel_t* channel, fiber_t** waiters) {
   fiber_manager_t* const manager = fiber_manager_get();
   fiber_t* const this_fiber = manager->current_fiber;
-  this_fiber->scratch = channel->waiters;
-  channel->waiters = this_fiber;
+  this_fiber->scratch = *waiters;
+  *waiters = this_fiber;
   assert(this_fiber->state == FIBER_STATE_RUNNING);
   this_fiber->state = FIBER_STATE_WAITING;
   manager->mutex_to_unlock = &channel->lock;
   fiber_manager_yield(manager);
 }
 
-static inline void fiber_multi_channel_internal_wake(
-    fiber_multi_channel_t* channel) {
-  if (channel->waiters) {
-    fiber_t* const to_wake = channel->waiters;
-    channel->waiters = to_wake->scratch;
+static inline void fiber_multi_channel_internal_wake(fiber_t** waiters) {
+  if (*waiters) {
+    fiber_t* const to_wake = *waiters;
+    *waiters = to_wake->scratch;
     to_wake->scratch = NULL;
     to_wake->state = FIBER_STATE_READY;
     fiber_manager_schedule(fiber_manager_get(), to_wake);
@@ -85,12 +89,12 @@ static inline void fiber_multi_channel_send(fiber_multi_channel_t* channel,
     if (channel->high - channel->low < channel->size) {
       break;
     }
-    fiber_multi_channel_internal_wait(channel);
+    fiber_multi_channel_internal_wait(channel, &channel->send_waiters);
   }
   const uint32_t index = channel->high & channel->power_of_2_mod;
   channel->buffer[index] = message;
   channel->high += 1;
-  fiber_multi_channel_internal_wake(channel);
+  fiber_multi_channel_internal_wake(&channel->recv_waiters);
   fiber_mutex_unlock(&channel->lock);
 }
 
@@ -103,13 +107,13 @@ static inline void* fiber_multi_channel_receive(
     if (channel->high > channel->low) {
       break;
     }
-    fiber_multi_channel_internal_wait(channel);
+    fiber_multi_channel_internal_wait(channel, &channel->recv_waiters);
   }
   const uint32_t index = channel->low & channel->power_of_2_mod;
   void* const ret = channel->buffer[index];
   channel->buffer[index] = 0;
   channel->low += 1;
-  fiber_multi_channel_internal_wake(channel);
+  fiber_multi_channel_internal_wake(&channel->send_waiters);
   fiber_mutex_unlock(&channel->lock);
   return ret;
 }
